@@ -1,0 +1,391 @@
+//! Plain-data facade over records, the cache and probe tiebreaking. Delegation only.
+//!
+//! All time-dependent calls read `current_time_millis()`; component-level checks set the
+//! thread clock with [`crate::verif::set_thread_clock`] first.
+
+use super::codec::{build_record, RecordSpec, RecordView};
+use super::SimIf;
+use crate::dns_cache::{DnsCache, IpType};
+use crate::dns_parser::{
+    verif_view, DnsAddress, DnsIncoming, DnsRecordBox, DnsRecordExt, InterfaceId, RRType,
+};
+use crate::service_info::{MyIntf, Probe};
+use std::cmp::Ordering;
+use std::collections::HashSet;
+use std::net::IpAddr;
+
+/// One boxed record of the crate.
+pub struct Rec(pub(crate) DnsRecordBox);
+
+impl Clone for Rec {
+    fn clone(&self) -> Self {
+        Rec(self.0.clone())
+    }
+}
+
+impl Rec {
+    /// Created at `current_time_millis()`.
+    pub fn new(spec: &RecordSpec) -> Rec {
+        Rec(build_record(spec))
+    }
+
+    /// An address record tagged with the interface it was received on.
+    pub fn new_addr(
+        name: &str,
+        class: u16,
+        ttl: u32,
+        ip: IpAddr,
+        if_name: &str,
+        if_index: u32,
+    ) -> Rec {
+        let ty = match ip {
+            IpAddr::V4(_) => RRType::A,
+            IpAddr::V6(_) => RRType::AAAA,
+        };
+        Rec(DnsAddress::new(
+            name,
+            ty,
+            class,
+            ttl,
+            ip,
+            InterfaceId {
+                name: if_name.to_string(),
+                index: if_index,
+            },
+        )
+        .boxed())
+    }
+
+    pub fn view(&self) -> RecordView {
+        verif_view::view_record(self.0.as_ref())
+    }
+    pub fn is_expired(&self, now: u64) -> bool {
+        self.0.get_record().is_expired(now)
+    }
+    pub fn expires_soon(&self, now: u64) -> bool {
+        self.0.get_record().expires_soon(now)
+    }
+    pub fn refresh_due(&self, now: u64) -> bool {
+        self.0.get_record().refresh_due(now)
+    }
+    pub fn halflife_passed(&self, now: u64) -> bool {
+        self.0.get_record().halflife_passed(now)
+    }
+    pub fn refresh_maybe(&mut self, now: u64) -> bool {
+        self.0.get_record_mut().refresh_maybe(now)
+    }
+    pub fn refresh_no_more(&mut self) {
+        self.0.get_record_mut().refresh_no_more()
+    }
+    pub fn reset_ttl(&mut self, other: &Rec) {
+        self.0.reset_ttl(other.0.as_ref())
+    }
+    pub fn update_ttl(&mut self, now: u64) {
+        self.0.get_record_mut().update_ttl(now)
+    }
+    pub fn remaining_ttl(&self, now: u64) -> u32 {
+        verif_view::remaining_ttl(self.0.as_ref(), now)
+    }
+    pub fn set_expire_sooner(&mut self, at: u64) {
+        self.0.set_expire_sooner(at)
+    }
+    pub fn matches(&self, other: &Rec) -> bool {
+        self.0.matches(other.0.as_ref())
+    }
+    pub fn rrdata_match(&self, other: &Rec) -> bool {
+        self.0.rrdata_match(other.0.as_ref())
+    }
+    pub fn compare(&self, other: &Rec) -> Ordering {
+        self.0.compare(other.0.as_ref())
+    }
+    /// Responder side of known-answer suppression: would `self` be left out because the
+    /// query lists `known`?
+    pub fn suppressed_by_answer(&self, known: &Rec) -> bool {
+        self.0.suppressed_by_answer(known.0.as_ref())
+    }
+}
+
+fn my_intf(i: &SimIf) -> MyIntf {
+    MyIntf {
+        name: i.name.clone(),
+        index: i.index,
+        addrs: HashSet::from([i.to_interface().addr]),
+    }
+}
+
+/// A cached record with the interface it was stored under.
+#[derive(Clone, Debug, PartialEq, Eq)]
+pub struct CachedView {
+    pub rec: RecordView,
+    pub src_if_name: String,
+    pub src_if_index: u32,
+}
+
+#[derive(Clone, Debug, Default, PartialEq, Eq)]
+pub struct CacheCounts {
+    pub ptr: usize,
+    pub srv: usize,
+    pub txt: usize,
+    pub addr: usize,
+    pub nsec: usize,
+    pub subtype: usize,
+}
+
+/// Result of `add_or_update`.
+#[derive(Clone, Debug)]
+pub struct AddOutcome {
+    /// None: rejected; Some(true): new record; Some(false): existing record refreshed.
+    pub result: Option<bool>,
+    pub stored: Option<RecordView>,
+    /// Timers the cache asked for (cache-flush expiries).
+    pub timers: Vec<u64>,
+}
+
+pub struct Cache(DnsCache);
+
+impl Default for Cache {
+    fn default() -> Self {
+        Self::new()
+    }
+}
+
+impl Cache {
+    pub fn new() -> Self {
+        Cache(DnsCache::new())
+    }
+
+    pub fn add_or_update(&mut self, intf: &SimIf, rec: Rec, is_for_us: bool) -> AddOutcome {
+        let mut timers = Vec::new();
+        let mi = my_intf(intf);
+        let r = self.0.add_or_update(&mi, rec.0, &mut timers, is_for_us);
+        let (result, stored) = match r {
+            Some((ri, is_new)) => (
+                Some(is_new),
+                Some(verif_view::view_record(ri.record.as_ref())),
+            ),
+            None => (None, None),
+        };
+        AddOutcome {
+            result,
+            stored,
+            timers,
+        }
+    }
+
+    pub fn remove(&mut self, rec: &Rec) -> bool {
+        self.0.remove(&rec.0)
+    }
+
+    /// (ty_domain, instances) pairs.
+    pub fn evict_expired_services(&mut self, now: u64) -> Vec<(String, Vec<String>)> {
+        let mut v: Vec<(String, Vec<String>)> = self
+            .0
+            .evict_expired_services(now)
+            .into_iter()
+            .map(|(k, s)| {
+                let mut l: Vec<String> = s.into_iter().collect();
+                l.sort();
+                (k, l)
+            })
+            .collect();
+        v.sort();
+        v
+    }
+
+    /// (host name as stored, addresses) pairs.
+    pub fn evict_expired_addr(&mut self, now: u64) -> Vec<(String, Vec<IpAddr>)> {
+        let mut v: Vec<(String, Vec<IpAddr>)> = self
+            .0
+            .evict_expired_addr(now)
+            .into_iter()
+            .map(|(k, s)| {
+                let mut l: Vec<IpAddr> = s.into_iter().map(|a| a.to_ip_addr()).collect();
+                l.sort();
+                (k, l)
+            })
+            .collect();
+        v.sort();
+        v
+    }
+
+    pub fn refresh_due_ptr(&mut self, ty_domain: &str) -> Vec<u64> {
+        let mut v: Vec<u64> = self.0.refresh_due_ptr(ty_domain).into_iter().collect();
+        v.sort();
+        v
+    }
+
+    /// ((instance, rtypes) pairs, new timers)
+    pub fn refresh_due_srv_txt(&mut self, ty_domain: &str) -> (Vec<(String, Vec<u16>)>, Vec<u64>) {
+        let (m, t) = self.0.refresh_due_srv_txt(ty_domain);
+        let mut v: Vec<(String, Vec<u16>)> = m
+            .into_iter()
+            .map(|(k, tys)| (k, tys.into_iter().map(|t| t as u16).collect()))
+            .collect();
+        v.sort();
+        let mut t: Vec<u64> = t.into_iter().collect();
+        t.sort();
+        (v, t)
+    }
+
+    pub fn refresh_due_hosts(&mut self, ty_domain: &str) -> (Vec<String>, Vec<u64>) {
+        let (h, t) = self.0.refresh_due_hosts(ty_domain);
+        let mut h: Vec<String> = h.into_iter().collect();
+        h.sort();
+        let mut t: Vec<u64> = t.into_iter().collect();
+        t.sort();
+        (h, t)
+    }
+
+    pub fn refresh_due_hostname_resolutions(&mut self, hostname: &str) -> Vec<(String, IpAddr)> {
+        let mut v: Vec<(String, IpAddr)> = self
+            .0
+            .refresh_due_hostname_resolutions(hostname)
+            .into_iter()
+            .map(|(h, a)| (h, a.to_ip_addr()))
+            .collect();
+        v.sort();
+        v
+    }
+
+    pub fn known_answers(&self, name: &str, qtype: u16, now: u64) -> Vec<RecordView> {
+        let Some(t) = RRType::from_u16(qtype) else {
+            return Vec::new();
+        };
+        self.0
+            .get_known_answers(name, t, now)
+            .into_iter()
+            .map(|r| verif_view::view_record(r.record.as_ref()))
+            .collect()
+    }
+
+    pub fn service_verify_queries(
+        &mut self,
+        instance: &str,
+        expire_at: Option<u64>,
+    ) -> Vec<(String, u16)> {
+        self.0
+            .service_verify_queries(instance, expire_at)
+            .into_iter()
+            .map(|(n, t)| (n, t as u16))
+            .collect()
+    }
+
+    pub fn remove_service_type(&mut self, ty_domain: &str) {
+        self.0.remove_service_type(ty_domain)
+    }
+
+    /// (removed instances per type, modified instances)
+    pub fn remove_records_on_intf(
+        &mut self,
+        if_name: &str,
+        if_index: u32,
+    ) -> (Vec<(String, Vec<String>)>, Vec<String>) {
+        let r = self.0.remove_records_on_intf(InterfaceId {
+            name: if_name.to_string(),
+            index: if_index,
+        });
+        let mut removed: Vec<(String, Vec<String>)> = r
+            .removed_instances
+            .into_iter()
+            .map(|(k, s)| {
+                let mut l: Vec<String> = s.into_iter().collect();
+                l.sort();
+                (k, l)
+            })
+            .collect();
+        removed.sort();
+        let mut modified: Vec<String> = r.modified_instances.into_iter().collect();
+        modified.sort();
+        (removed, modified)
+    }
+
+    pub fn remove_addrs_on_disabled_intf(&mut self, if_index: u32, v4: bool, v6: bool) {
+        let t = match (v4, v6) {
+            (true, true) => IpType::BOTH,
+            (true, false) => IpType::V4,
+            (false, true) => IpType::V6,
+            (false, false) => return,
+        };
+        self.0.remove_addrs_on_disabled_intf(if_index, t)
+    }
+
+    pub fn counts(&self) -> CacheCounts {
+        CacheCounts {
+            ptr: self.0.ptr_count(),
+            srv: self.0.srv_count(),
+            txt: self.0.txt_count(),
+            addr: self.0.addr_count(),
+            nsec: self.0.nsec_count(),
+            subtype: self.0.subtype_count(),
+        }
+    }
+
+    fn views(v: Option<&Vec<crate::dns_cache::DnsRecordIntf>>) -> Vec<CachedView> {
+        v.into_iter()
+            .flatten()
+            .map(|r| CachedView {
+                rec: verif_view::view_record(r.record.as_ref()),
+                src_if_name: r.src_intf.name.clone(),
+                src_if_index: r.src_intf.index,
+            })
+            .collect()
+    }
+
+    pub fn get_ptr(&self, ty_domain: &str) -> Vec<CachedView> {
+        Self::views(self.0.get_ptr(ty_domain))
+    }
+    pub fn get_srv(&self, fullname: &str) -> Vec<CachedView> {
+        Self::views(self.0.get_srv(fullname))
+    }
+    pub fn get_txt(&self, fullname: &str) -> Vec<CachedView> {
+        Self::views(self.0.get_txt(fullname))
+    }
+    pub fn get_addr(&self, hostname: &str) -> Vec<CachedView> {
+        Self::views(self.0.get_addr(hostname))
+    }
+}
+
+/// Outcome of presenting an incoming probe to our own probe for `probe_name`.
+#[derive(Clone, Debug, PartialEq, Eq)]
+pub struct TieOutcome {
+    /// We yielded: the probe was postponed.
+    pub lost: bool,
+    pub start_time: u64,
+    pub next_send: u64,
+    /// Our records in the order the probe holds them.
+    pub sorted: Vec<RecordView>,
+}
+
+/// `Probe::insert_record` for each of `mine` (in the given order) into a probe that started at
+/// `probe_start`, then `Probe::tiebreaking` against the authority section of `incoming`
+/// (a query datagram) at `current_time_millis()`.
+pub fn tiebreak(
+    mine: &[Rec],
+    probe_start: u64,
+    incoming: &[u8],
+    probe_name: &str,
+) -> Result<TieOutcome, String> {
+    let msg =
+        DnsIncoming::new(incoming.to_vec(), InterfaceId::default()).map_err(|e| e.to_string())?;
+    let mut probe = Probe::new(probe_start);
+    for r in mine {
+        probe.insert_record(r.0.clone());
+    }
+    let before = probe.start_time;
+    probe.tiebreaking(&msg, probe_name);
+    Ok(TieOutcome {
+        lost: probe.start_time != before,
+        start_time: probe.start_time,
+        next_send: probe.next_send,
+        sorted: probe
+            .records
+            .iter()
+            .map(|r| verif_view::view_record(r.as_ref()))
+            .collect(),
+    })
+}
+
+/// `Probe::expired` for a probe started at `start`.
+pub fn probe_expired(start: u64, now: u64) -> bool {
+    Probe::new(start).expired(now)
+}
